@@ -19,12 +19,12 @@ from mpv import arr
 
 ANCHORS = ['mpilot/libraries/eems/csv/io.py:EEMSRead.execute', 'mpilot/libraries/eems/csv/io.py:EEMSWrite.execute']   # repository functions the workload must enter (reported as anchors_reached / anchors_missed)
 LEVEL = "exploration"
-RULE = ("tables of 0-60 rows x 1-6 columns; header names needing CSV quoting (commas, quotes, blanks, non-ASCII); cells from a hostile "
+RULE = ("tables of 0-60 rows x 1-6 columns (and of 8 192 - 70 000 rows x 1-3 columns); header names needing CSV quoting (commas, quotes, blanks, non-ASCII); cells from a hostile "
         "double pool (subnormals, extremes, -0.0, 17-digit values, integers up to 2^53, values within one ulp / 1e-6 of the missing "
         "value) and int64; missing value in {absent, 0, -9999, only in other columns, everywhere}; Float / Integer / default type; blank "
         "lines; LF / CRLF; write cases with 1-4 results in any type order; distinct by (case kind, dtype request, missing class, ncols, "
         "has-blank-lines, eol, header class)")
-REQUIRED_COUNTERS = ["columns_read_and_compared", "mask_checks", "other_column_independence_checks", "error_line_checks", "files_written_and_parsed", "read_after_write_checks", "same_path_rereads", "ragged_other_column_checks"]
+REQUIRED_COUNTERS = ["columns_read_and_compared", "mask_checks", "other_column_independence_checks", "error_line_checks", "files_written_and_parsed", "read_after_write_checks", "same_path_rereads", "ragged_other_column_checks", "large_files_read"]
 ASSUMPTIONS = ["don't-care: textual form of missing cells in written files, fractional cells read as Integer, NaN/inf, rows too short to hold the requested column, rank != 1 on write",
                "integers are generated within +-2^53 (cells are parsed through float())"]
 
@@ -78,6 +78,10 @@ def cases(ctx):
     for i in range(ctx.n(900, 60000)):
         t = gen_table(rng)
         yield {"kind": "read", "table": t, "target": rng.randrange(len(t["cols"])), "dtype": rng.choice([None, "Float", "Integer"]), "rseed": rng.randrange(10 ** 9)}
+    # files of tens of thousands of lines (block-wise readers), with blank lines anywhere
+    for i in range(ctx.n(2, 12)):
+        yield {"kind": "bigread", "nrows": rng.choice([8192, 8193, 9000, 20000, 16384 + 5, 70000]), "ncols": rng.randint(1, 3), "rseed": rng.randrange(10 ** 9),
+               "blanks": rng.choice([0, 1, 3, 40]), "dtype": rng.choice([None, "Float", "Integer"]), "eol": rng.choice(["\n", "\r\n"])}
     for i in range(ctx.n(300, 15000)):
         t = gen_table(rng)
         if t["nrows"] == 0:
@@ -153,8 +157,45 @@ def _read(prog, path, name, header, dtype, missing):
     return arr.invoke(prog, "EEMSRead", name, args)
 
 
+def run_bigread(ctx, case):
+    rs = numpy.random.RandomState(case["rseed"] % (2 ** 31))
+    n, ncols = case["nrows"], case["ncols"]
+    integer = case["dtype"] == "Integer"
+    cols = [rs.randint(-10 ** 6, 10 ** 6, size=n) if integer else numpy.round(rs.uniform(-1e6, 1e6, size=n), 6) for _ in range(ncols)]
+    target = case["rseed"] % ncols
+    missing = -9999 if case["rseed"] % 3 == 0 else None
+    if missing is not None:
+        cols[target][rs.uniform(size=n) < 0.01] = missing
+    blank_after = set(int(x) for x in rs.randint(0, n, size=case["blanks"])) if case["blanks"] else set()
+    d = ctx.scratch()
+    path = os.path.join(d, "big.csv")
+    with open(path, "w", newline="") as f:
+        f.write(",".join("C%d" % k for k in range(ncols)) + case["eol"])
+        for r in range(n):
+            f.write(",".join(repr(int(c[r])) if integer else repr(float(c[r])) for c in cols) + case["eol"])
+            if r in blank_after:
+                f.write(case["eol"])
+    ctx.feature(("bigread", n > 8192 * 2, ncols, bool(blank_after), case["dtype"], case["eol"] == "\r\n", missing is not None))
+    ctx.count("large_files_read")
+    out = _read(arr.new_program(working_dir=d), path, "R", "C%d" % target, case["dtype"], missing)
+    if not out.ok:
+        ctx.fail("read:valid-table-rejected:%s:large-file" % (out.inner() or out.err), {"rows": n, "error": str(out.exc)[:300]})
+        return
+    res = out.value
+    ctx.count("columns_read_and_compared")
+    if not isinstance(res, numpy.ndarray) or res.shape != (n,):
+        ctx.fail("read:row-count:large-file", {"got": list(getattr(res, "shape", [])), "want": n, "blank_lines": len(blank_after), "first_blank_after_row": min(blank_after) if blank_after else None})
+        return
+    want = cols[target].astype("int64" if integer else "float64")
+    wmask = (want == missing) if missing is not None else numpy.zeros(n, bool)
+    gm, gd = numpy.ma.getmaskarray(res), numpy.ma.getdata(res)
+    if (gm != wmask).any() or (gd[~wmask] != want[~wmask]).any():
+        i = int(numpy.flatnonzero((gm != wmask) | ((gd != want) & ~wmask))[0])
+        ctx.fail("read:value:large-file", {"row": i, "got": None if gm[i] else gd[i].item(), "want": None if wmask[i] else want[i].item(), "rows": n})
+
+
 def run_case(ctx, case):
-    return {"read": run_read, "error": run_error, "write": run_write}[case["kind"]](ctx, case)
+    return {"read": run_read, "error": run_error, "write": run_write, "bigread": run_bigread}[case["kind"]](ctx, case)
 
 
 def _hclass(name):
@@ -260,10 +301,20 @@ def run_error(ctx, case):
     prog = arr.new_program(working_dir=d)
     if case["fault"] == "missing-header":
         write_csv(t, path, blanks)
-        out = _read(prog, path, "R", "No Such Header", None, None)
+        # a name no column has: an unrelated one, or one that differs from an existing header only in letter case, in blanks
+        # around it, or by being a prefix of it
+        have = [c["name"] for c in t["cols"]]
+        cands = ["No Such Header"]
+        for h in have:
+            for v in (h.upper(), h.lower(), h.swapcase(), " " + h, h + " ", h[:-1], h + "x"):
+                if v and v not in have and "\n" not in v:
+                    cands.append(v)
+        want = cands[case["rseed"] % len(cands)]
+        vclass = "unrelated" if want == "No Such Header" else "case-variant" if want.lower() in [h.lower() for h in have] else "blank-variant" if want.strip() in have else "prefix-or-extension"
+        out = _read(prog, path, "R", want, None, None)
         if out.ok or out.err != "InvalidDataFile":
-            ctx.fail("error:missing-header:%s" % ("accepted" if out.ok else out.inner() or out.err), {"error": repr(out.exc)[:200]})
-        elif "No Such Header" not in str(out.exc):
+            ctx.fail("error:missing-header:%s:%s" % (vclass, "accepted" if out.ok else out.inner() or out.err), {"requested": want, "headers": have, "error": repr(out.exc)[:200]})
+        elif want.strip() not in str(out.exc):
             ctx.fail("error:missing-header:message-does-not-name-header", {"message": str(out.exc)[:300]})
         return
     bad_row = rng.randrange(t["nrows"])
